@@ -152,6 +152,40 @@ Example c17_skip_collects_nothing_ex :
              output_of rs = [4]%Z /\ logs_of rs = [[]; []].
 Proof. eexists. repeat split; vm_compute; reflexivity. Qed.
 
+(* ---------- one collector shared by several runs ----------
+   `run_effect validate m hc ps before after`: a run on a collector that already holds `before`
+   leaves `after`. A log-mode run with the collector attached appends exactly one entry per invalid
+   record of THAT run (whatever earlier runs did, including earlier fail-fast runs that panicked);
+   every other run -- skip mode, no collector attached, fail-fast whether it completes or panics --
+   leaves the content exactly as it was. *)
+Theorem c17_collector_across_runs :
+  forall (R E : Type) (validate : R -> vresult E) (m : mode) (has_collector : bool)
+         (ps : list (list R)) (before after : list (entry E)),
+    run_effect validate m has_collector ps before after ->
+    (m = LogAndContinue -> has_collector = true ->
+     exists app, after = before ++ app /\
+                 Permutation app (flat_map (local_entries validate) ps) /\
+                 Permutation (map (@e_errors E) app) (invalid_errors validate (concat ps)) /\
+                 length after = length before + count_invalid validate (concat ps)) /\
+    ((m = LogAndContinue -> has_collector = false) -> after = before).
+Proof. exact collector_across_runs. Qed.
+
+(* a fail-fast run that panics on a collector holding one entry, then a log run on it *)
+Example c17_collector_across_runs_ex :
+  let before := [mk_entry 0 [4]]%Z in
+  run_effect validate_z FailFast true [[4; 5]]%Z before before /\
+  run_effect validate_z LogAndContinue true [[4; 5]; [2]]%Z before
+             (before ++ [mk_entry 0 [8; 9]; mk_entry 1 [20]])%Z.
+Proof.
+  split.
+  - apply re_panicked. vm_compute. reflexivity.
+  - eapply re_completed; [vm_compute; reflexivity|].
+    cbn [logs_of map snd].
+    apply (il_step [[mk_entry 1 [20%Z]]] (mk_entry 0 [8; 9]%Z) [] []). cbn [app].
+    apply (il_step [] (mk_entry 1 [20%Z]) [] [[]]). cbn [app].
+    apply il_done. repeat constructor.
+Qed.
+
 (* ---------- fail-fast: the run panics iff some record is invalid; else output = input ---------- *)
 Theorem c17_fail_fast_iff :
   forall (R E : Type) (validate : R -> vresult E) (has_collector : bool) (ps : list (list R)),
